@@ -152,7 +152,10 @@ func propCfg(prop string) genCfg {
 		base.drainW = 8
 		base.merges = 0.3
 	case "C12":
-		base.backings = []string{"store"}
+		// "direct": the application drives Store.Persist itself and picks the
+		// compaction concern of every round (a forced full compaction that
+		// fails leaves the history as it was)
+		base.backings = []string{"store", "store", "store", "direct"}
 		base.flags = []string{"history", "storeEach"}
 		base.concerns = []int{0, 0, 0, 1}
 		base.histW = 20
